@@ -64,6 +64,11 @@ func c11Case(c *hx.Ctx, r *hx.RNG, idx int64) {
 		formats = append(formats, "f")
 	}
 	ft := formats[r.Intn(len(formats))]
+	if ft == "b" && x.Prec() > 1<<20 {
+		// 'b' prints the mantissa padded to the precision: billions of digits at a precision from the top of the range
+		x.SetPrec(uint(len(ds)) + uint(r.Intn(40)))
+		route += "(precision lowered for 'b')"
+	}
 	what := fmt.Sprintf("%s of %s (prec %d, route %s)", ft, v.Full(), x.Prec(), route)
 	c.Note(what)
 	if c.Verbose {
